@@ -189,6 +189,21 @@ Section ENGINE.
       end
     end.
 
+  (* the state a stage goroutine ends with (None: it failed before the end of its input) *)
+  Fixpoint wrap_final {S} (o : ops S) (s : S) (bs : batches) : option S :=
+    match bs with
+    | [] => match on_end o s with Ok _ => Some s | Fail _ => None end
+    | b :: r =>
+      match fold_entries o s b with
+      | Fail _ => None
+      | Ok (s1, b1) =>
+        match on_slice o s1 b1 with
+        | Fail _ => None
+        | Ok (s2, _) => wrap_final o s2 r
+        end
+      end
+    end.
+
   (* ---------------------------------------------------------------------------------------- *)
   (* stages that keep or drop entries: `_entries = append(_entries, *entry)` in OnEntry,
      `c <- _entries; _entries = nil` in OnAfterEntriesSlice                                       *)
@@ -217,7 +232,8 @@ Section ENGINE.
   (* planner_label_filter.go *)
   Inductive simple_filter :=
   | SfStr (op : str_op) (name val : string)
-  | SfNum (op : cmp) (name : string) (val : V).
+  | SfNum (op : cmp) (name : string) (val : V)
+  | SfIll.            (* a string operator with a numeric literal (`| n = 5`, `| n =~ 5`): Process() refuses the stage *)
   Inductive lfilter := LF (h : lhead) (t : option (bool * lfilter))     (* true = and, false = or *)
   with lhead := HSimple (s : simple_filter) | HComplex (f : lfilter).
 
@@ -238,6 +254,7 @@ Section ENGINE.
       let x := olget l name in
       if String.eqb x EmptyString then false
       else match pfloat x with None => false | Some f => cmp_val op f val end
+    | SfIll => false
     end.
   Fixpoint lfilter_eval (f : lfilter) (l : option lbls) : bool :=
     match f with
@@ -248,6 +265,15 @@ Section ENGINE.
       | Some (true, g) => r && lfilter_eval g l
       | Some (false, g) => r || lfilter_eval g l
       end
+    end.
+
+  (* makeFilter: stringSimpleFilter refuses a head without a string value (after the fix; it dereferenced the nil
+     *QuotedString before and the request ended in the controller's recover with status 500) *)
+  Fixpoint lfilter_ok (f : lfilter) : bool :=
+    match f with
+    | LF h t =>
+      match h with HSimple SfIll => false | HSimple _ => true | HComplex g => lfilter_ok g end &&
+      match t with None => true | Some (_, g) => lfilter_ok g end
     end.
 
   (* after the fix an entry carrying an error passes the label filter, as it always passed the line filter *)
@@ -333,14 +359,17 @@ Section ENGINE.
 
   (* planner_limit.go (after the fix of limit = 0: forward everything, like the SQL path which
      emits no LIMIT clause for 0)                                                                *)
-  Definition limit_ops (limit : Z) : ops Z := {|
-    on_entry := fun sent e => Ok (sent, e);
-    on_slice := fun sent b =>
+  (* the state is (sent, cancelled): `ctx.CancelCtx()` is called in the branch that fills the limit (the upstream
+     ClickHouse query is cancelled); a negative limit sends nothing (sent >= limit from the start) and never cancels *)
+  Definition limit_ops (limit : Z) : ops (Z * bool) := {|
+    on_entry := fun st e => Ok (st, e);
+    on_slice := fun st b =>
+      let sent := fst st in
       let n := Z.of_nat (List.length b) in
-      if limit =? 0 then Ok (sent, [b])
-      else if limit <=? sent then Ok (sent, [])
-      else if sent + n <? limit then Ok (sent + n, [b])
-      else Ok (limit, [firstn (Z.to_nat (limit - sent)) b]);
+      if limit =? 0 then Ok (st, [b])
+      else if limit <=? sent then Ok (st, [])
+      else if sent + n <? limit then Ok ((sent + n, snd st), [b])
+      else Ok ((limit, true), [firstn (Z.to_nat (limit - sent)) b]);
     on_end := fun _ => Ok []
   |}.
 
@@ -550,6 +579,7 @@ Section ENGINE.
     | SAgg k dur =>
       negb (dur =? 0) && (Z.quot (c_to c - c_from c) dur <=? 4000000000) &&
       match k with KAggOp AUnsupported => false | _ => true end
+    | SLabelFilter f => lfilter_ok f
     | _ => true
     end.
 
@@ -565,7 +595,7 @@ Section ENGINE.
     | SByWithout by_ names => wrap (map_ops (by_without_f by_ names)) tt bs
     | SAgg k dur => wrap (agg_ops k c dur) [] bs
     | SComparison op val => wrap (filter_ops (comparison_keep op val)) [] bs
-    | SLimit => wrap (limit_ops (c_limit c)) 0 bs
+    | SLimit => wrap (limit_ops (c_limit c)) (0, false) bs
     | SOptimizer => wrap optimizer_ops ([], 0) bs
     end.
 
@@ -573,6 +603,17 @@ Section ENGINE.
   Definition has_crash (bs : batches) : bool := existsb (existsb (fun e => errk_eqb (e_err e) ECrash)) bs.
   Definition run_chain (c : ctx) (ch : list stage) (bs : batches) : batches :=
     fold_left (fun b s => if has_crash b then b else run_stage c s b) ch bs.
+
+  (* the side effect of the limit stage: was ctx.CancelCtx called while the stage consumed bs *)
+  Definition limit_cancelled (c : ctx) (bs : batches) : bool :=
+    match wrap_final (limit_ops (c_limit c)) (0, false) bs with Some st => snd st | None => false end.
+  Fixpoint chain_cancelled (c : ctx) (ch : list stage) (bs : batches) : bool :=
+    match ch with
+    | [] => false
+    | s :: r =>
+      if has_crash bs then false
+      else (match s with SLimit => limit_cancelled c bs | _ => false end) || chain_cancelled c r (run_stage c s bs)
+    end.
 
   (* shared/planner_clickhouse_getter.go Scan: batches of 100 rows, the last batch ends with an
      entry carrying io.EOF (nil label map)                                                        *)
@@ -833,6 +874,19 @@ Section ENGINE.
 
   Definition model_obs (c : ctx) (ch : list stage) (bs : batches) : obs :=
     if forallb (stage_plan_ok c) ch then observe (run_chain c ch bs) else ObsErr ENone.   (* ENone: Process() refused *)
+  Definition model_cancel (c : ctx) (ch : list stage) (bs : batches) : bool :=
+    forallb (stage_plan_ok c) ch && chain_cancelled c ch bs.
+  (* the upstream query may only be cancelled by a positive limit that the entries which arrived can fill: the observed
+     data entries, the non-data entries of the input and at most one error entry made by a stage *)
+  Definition cancel_code (c : ctx) (bs : batches) (o : obs) (cancelled : bool) : Z :=
+    if cancelled then
+      match o with
+      | ObsOk l =>
+        let nondata := List.length (filter (fun e => negb (errk_eqb (e_err e) ENone)) (List.concat bs)) in
+        if (c_limit c <=? 0) || (Z.of_nat (List.length l + nondata + 1) <? c_limit c) then 5 else 0
+      | ObsErr _ => 0
+      end
+    else 0.
 End ENGINE.
 
 (* ============================================================================================ *)
@@ -867,7 +921,8 @@ Record fcase := {
   f_chain : list fstage;
   f_in : list (list fentry);
   f_kills : bool;                    (* panic_kills, read from the source of planner_generic.go *)
-  f_obs : obs float                  (* what the real chain sent, canonicalised by the harness *)
+  f_obs : obs float;                 (* what the real chain sent, canonicalised by the harness *)
+  f_cancel : bool                    (* ctx.CancelCtx was called during the run *)
 }.
 
 Section FCASE.
@@ -882,16 +937,22 @@ Section FCASE.
   Definition f_model_obs : obs float :=
     model_obs float 0%float 1%float PrimFloat.add PrimFloat.div PrimFloat.ltb PrimFloat.leb PrimFloat.eqb fofZ
               (f_kills k) o_fpf o_re o_pf o_parse o_tmpl (f_ctx k) (f_chain k) (f_in k).
+  Definition f_model_cancel : bool :=
+    model_cancel float 0%float 1%float PrimFloat.add PrimFloat.div PrimFloat.ltb PrimFloat.leb PrimFloat.eqb fofZ
+                 (f_kills k) o_fpf o_re o_pf o_parse o_tmpl (f_ctx k) (f_chain k) (f_in k).
   Definition f_mismatch : bool :=
-    negb (obs_eqb float PrimFloat.eqb f_model_obs (f_obs k)).
+    negb (obs_eqb float PrimFloat.eqb f_model_obs (f_obs k)) ||
+    match f_obs k with ObsErr ECrash => false | _ => negb (Bool.eqb f_model_cancel (f_cancel k)) end.
   Definition f_spec_code : Z :=
     spec_code float 0%float 1%float PrimFloat.add PrimFloat.div PrimFloat.ltb PrimFloat.leb PrimFloat.eqb fofZ
               o_fpf o_re o_pf o_parse o_tmpl (f_ctx k) (f_chain k) (f_in k) (f_obs k).
+  Definition f_code : Z :=
+    if f_spec_code =? 0 then cancel_code float (f_ctx k) (f_in k) (f_obs k) (f_cancel k) else f_spec_code.
 End FCASE.
 
 Definition mismatches (cs : list fcase) : list Z := map f_id (filter f_mismatch cs).
 Definition spec_violations (cs : list fcase) : list (Z * Z) :=
-  filter (fun p => negb (snd p =? 0)) (map (fun c => (f_id c, f_spec_code c)) cs).
+  filter (fun p => negb (snd p =? 0)) (map (fun c => (f_id c, f_code c)) cs).
 
 (* ============================================================================================ *)
 (* reader/logql/logql_transpiler_v2/planner.go: GetBreakpoint / breakScript — where a pipeline is split between ClickHouse
